@@ -127,6 +127,21 @@ CHECKS['C05'] = dict(
     ],
 )
 
+CHECKS['C09'] = dict(
+    level='exploration',
+    rule='generated keys (lengths 0..500, only the first 60 bytes seed the generator) -> the 8 SuperscalarHash programs from generateSuperscalar; (A) validity predicate: size in [1,512], '
+         'only the 14 encodings of the ten instruction kinds, registers 0-7, Table 6.1.1 operand rules, address register = longest dependency chain recomputed from the instruction list; '
+         '(B) instruction-for-instruction equality with the model generator; the model reports which rare paths it took (operand stall / look-ahead, throw-away, r5 two-register case, '
+         'chained multiplication allowed, stop by size/ports); (C) generated r0-r7 (boundary-biased) through executeSuperscalar and through the native code of '
+         'JitCompilerX86::generateSuperscalarHash (entered behind its located register-init prologue, zero cache) for the chain of 8 and for single programs. '
+         'Non-trivial: key (distinct in its first 60 bytes) with at least one program that hit source-operand starvation, the least frequent path observed (measured: ~12% of programs; throw-away, destination stall, chained-mul and the r5 case turn out to occur in most programs)',
+    assumptions=COMMON_ASSUME + ['model/ref_superscalar.cpp: the generator details specs.md 6.3 leaves open (draw order, look-ahead 4, throw-away limit 256) are pinned to upstream; validated by the 10 published digests'],
+    stages=[
+        dict(name='keys', harness=H('c09', ['harness/c09_superscalar.cpp'], model=True),
+             plan={'quick': 'keys=16000', 'thorough': 'keys=1600000'}),
+    ],
+)
+
 C02_AUX = os.path.join(os.path.dirname(os.path.abspath(__file__)), 'build', 'run', 'c02-digests')
 
 
